@@ -1008,7 +1008,7 @@ func impPasses() []string {
 	for _, fam := range grpFamilies {
 		res = append(res, fam.name)
 	}
-	return append(res, "H2F", "Set", "KzgOpen", "PolyEval", "FieldLoops", "InverseTail") // imp_fieldloops.go: Gen/Imp/FieldLoops.lean, Gen/Imp/InverseTail.lean; imp_h2f.go; impkzg.go: Gen/Imp/KzgOpen_<curve>.lean; imp_poly.go: Gen/Imp/PolyEval.lean
+	return append(res, "H2F", "Set", "KzgOpen", "PolyEval", "FieldLoops", "InverseTail", "Recode") // imp_fieldloops.go; imp_recode.go; imp_h2f.go; impkzg.go; imp_poly.go
 }
 
 func runImp() {
@@ -1020,6 +1020,12 @@ func runImp() {
 	}
 	if impOnly == "" || impOnly == "FieldLoops" {
 		runFieldLoops() // imp_fieldloops.go
+		if impOnly != "" {
+			return
+		}
+	}
+	if impOnly == "" || impOnly == "Recode" {
+		runRecode() // imp_recode.go: Gen/Imp/Recode.lean
 		if impOnly != "" {
 			return
 		}
